@@ -278,7 +278,11 @@ func runC08(rc *RC) {
 			sb.WriteString("<x xmlns='urn:other'/>")
 		case k == 23:
 			term = "streamerror"
-			fmt.Fprintf(&sb, `<%serror%s><conflict xmlns='urn:ietf:params:xml:ns:xmpp-streams'/></%serror>`, streamPfx, streamDecl, streamPfx)
+			// the defined condition alone, with a text, with an application-specific condition next to it (RFC 6120 4.9.2),
+			// or with both
+			extra := []string{"", `<text xmlns='urn:ietf:params:xml:ns:xmpp-streams' xml:lang='en'>replaced by a new connection</text>`,
+				`<too-many xmlns='http://example.org/ns'/>`, `<text xmlns='urn:ietf:params:xml:ns:xmpp-streams'>bye</text><escape-your-data xmlns='urn:verif:app'>x<y/></escape-your-data>`}[ch.Int("workload", 4)]
+			fmt.Fprintf(&sb, `<%serror%s><conflict xmlns='urn:ietf:params:xml:ns:xmpp-streams'/>%s</%serror>`, streamPfx, streamDecl, extra, streamPfx)
 		case k == 24:
 			term = "restart"
 			if opts.WS {
